@@ -41,7 +41,7 @@ type C03Case struct {
 
 func genC03(t *rapid.T) C03Case {
 	o := worldOpts()
-	w := gen.GenWorld(t, o)
+	w := gen.AnyWorld(t, o)
 	return C03Case{World: w, Requests: genRequests(t, w, o, 4, 10)}
 }
 
